@@ -1,8 +1,10 @@
 package v1
 
 import (
+	"fmt"
 	"math/big"
 	"net/http"
+	"strconv"
 	"strings"
 
 	"github.com/formancehq/go-libs/v5/pkg/query"
@@ -54,10 +56,15 @@ func mapTransactionToV1(tx ledger.Transaction) any {
 	}
 }
 
-func buildGetTransactionsQuery(r *http.Request) query.Builder {
+func buildGetTransactionsQuery(r *http.Request) (query.Builder, error) {
 	clauses := make([]query.Builder, 0)
 	if after := r.URL.Query().Get("after"); after != "" {
-		clauses = append(clauses, query.Lt("id", after))
+		// ids are numeric: the filter compares numbers, not the raw query string
+		afterID, err := strconv.ParseUint(after, 10, 64)
+		if err != nil {
+			return nil, fmt.Errorf("invalid 'after' query param: %w", err)
+		}
+		clauses = append(clauses, query.Lt("id", afterID))
 	}
 
 	// Support both startTime (new) and start_time (deprecated) parameters
@@ -97,11 +104,11 @@ func buildGetTransactionsQuery(r *http.Request) query.Builder {
 	}
 
 	if len(clauses) == 0 {
-		return nil
+		return nil, nil
 	}
 	if len(clauses) == 1 {
-		return clauses[0]
+		return clauses[0], nil
 	}
 
-	return query.And(clauses...)
+	return query.And(clauses...), nil
 }
